@@ -224,6 +224,24 @@ func (d *D) Base(idx int, ctx *core.Ctx) *core.Scenario {
 		sc.Kind = "fmt-stdin"
 		return sc
 	}
+	if idx%11 == 6 && nfiles > 0 && sc.Kind == "fmt" {
+		// the first file has a second name (hard link) that is not on the command line, e.g. a
+		// snapshot made with cp -l: whatever the command does to the named file, and wherever it is
+		// killed, the other name holds the complete original or the complete formatted text
+		first := sc.Files[0]
+		sc.Files = append(sc.Files, core.FileSpec{Name: "snapshot/" + filepath.Base(first.Name) + ".keep", Mode: first.Mode, Content: first.Content, Hard: first.Name})
+		sc.Kind = "fmt-hardlink"
+		if !flag(sc, "-w") && idx%3 != 0 {
+			// mostly with -w: that is where the named file is rewritten
+			args := []string{"fmt", "-w"}
+			for _, a := range sc.Argv[1:] {
+				if a != "-c" {
+					args = append(args, a)
+				}
+			}
+			sc.Argv = args
+		}
+	}
 	if idx%29 == 11 {
 		// symbolic links: the named path is a link with a relative target, in another
 		// directory than the working directory; a file with the target's name may sit
@@ -409,12 +427,24 @@ func (d *D) executeIn(dir string, sc *core.Scenario, faults []simos.Fault) *outc
 			}
 			continue
 		}
+		if f.Hard != "" {
+			continue // a second name of another file: linked below, its text is that file's text
+		}
 		os.Chmod(p, 0o600) //nolint:errcheck // the user edits the file in place (same inode, same name)
 		if err := os.WriteFile(p, []byte(f.Content), 0o600); err != nil {
 			panic(err)
 		}
 		if err := os.Chmod(p, os.FileMode(f.Mode)); err != nil {
 			panic(err)
+		}
+	}
+	for _, f := range sc.Files {
+		if f.Hard != "" {
+			p := filepath.Join(dir, f.Name)
+			os.Remove(p) //nolint:errcheck
+			if err := os.Link(filepath.Join(dir, f.Hard), p); err != nil {
+				panic(err)
+			}
 		}
 	}
 	old, _ := os.Getwd()
@@ -559,6 +589,9 @@ func invariants(sc *core.Scenario, o *outcome, faults []simos.Fault) *core.Viola
 			// what the path shows is the text of the file it points to
 			f.Content = contentOf(filepath.Join(filepath.Dir(f.Name), f.Link))
 		}
+		if f.Hard != "" {
+			f.Content = contentOf(f.Hard) // a second name of that file
+		}
 		ref, parses := reference(f.Name, f.Content)
 		if !named[f.Name] && !isLink {
 			// not on the command line
@@ -566,6 +599,9 @@ func invariants(sc *core.Scenario, o *outcome, faults []simos.Fault) *core.Viola
 			okState := st.exists && st.content == f.Content
 			if linkTarget[f.Name] && st.exists && parses && st.content == ref {
 				okState = true // writing through the link is a legitimate choice
+			}
+			if f.Hard != "" && st.exists && parses && st.content == ref && write {
+				okState = true // rewriting the shared inode in place is a legitimate choice - if it ends complete
 			}
 			if !okState || st.mode != f.Mode {
 				where["content_after"] = short(st.content)
@@ -742,6 +778,7 @@ func (d *D) RunItem(idx int, ctx *core.Ctx) {
 		ctx.Inc("command_died_with_go_panic(parser crash, C03 territory)", 1)
 	}
 	ctx.Inc("mode:"+strings.Join(sc.Argv[1:min(2, len(sc.Argv))], ""), 1)
+	ctx.Inc("kind:"+sc.Kind, 1)
 	if v := invariants(sc, base, nil); v != nil {
 		ctx.Violate(sc, v)
 	}
@@ -952,6 +989,13 @@ func (d *D) Describe(ev *core.Evidence, st *core.Stats) {
 	fired["two-fault-sequences"] = c["fault_sequences"]
 	fired["history: second run after a killed/failed first run"] = c["history_second_runs"]
 	fired["strace-injections"] = c["conformance_runs"]
+	kinds := map[string]int64{}
+	for k, v := range c { // copied into a map that json sorts
+		if strings.HasPrefix(k, "kind:") {
+			kinds[strings.TrimPrefix(k, "kind:")] = v
+		}
+	}
+	ev.Coverage["scenario_kinds"] = kinds
 	ev.Coverage["faults_injected"] = fired
 	ev.Coverage["traces_validated_against_impl"] = c["conformance_agree"]
 	ev.Coverage["conformance"] = map[string]int64{"runs": c["conformance_runs"], "agree_with_in_process": c["conformance_agree"], "skipped_no_ptrace": c["conformance_skipped"], "injection_not_hit": c["conformance_not_hit"]}
